@@ -1044,6 +1044,8 @@ def make_exc(kind):
             raise BErr("base")
         except BErr as e:
             return e
+    if kind == "base_new":
+        return BErr("base never raised")
     raise KeyError(kind)
 
 
@@ -1065,7 +1067,9 @@ def run_format_error(cell):
         if v is None:
             return ["none"]
         if isinstance(v, str):
-            return ["str"]
+            plain = re.sub(r"\x1b\[[0-9;]*m", "", v)
+            named = type(e).__name__ in plain and all(str(a) in plain for a in e.args)
+            return ["str", "names" if named else "does not name %s(%s): %r" % (type(e).__name__, e.args, plain[-200:])]
         return ["other", type(v).__name__]
     finally:
         asynq.debug.enable_filter_traceback(old_f)
